@@ -40,6 +40,11 @@ trait Sut {
     fn accepts(&self, _k: &[u8]) -> Option<bool> { None }
     fn longest_prefix(&self, _q: &[u8]) -> Option<Option<usize>> { None }
     fn finish(&self, _c: &mut Case) {}
+    // --- ext_* families (see the end of the file)
+    fn insert_id(&mut self, _k: &[u8]) -> Option<Result<u32, String>> { None }
+    fn lookup_id(&self, _k: &[u8]) -> Option<Option<u32>> { None }
+    fn shrink(&mut self) -> bool { false }
+    fn ext(&self, _c: &mut Case, _mon: &mut Mon, _m: &Set, _probes: &[Key], _kind: Ext) {}
 }
 
 struct Zt(ZiporaTrie);
@@ -62,10 +67,15 @@ impl Sut for Zt {
         // branch coverage visible through the public API: the double-array root was relocated iff its base moved off 1
         if let TrieStrategy::DoubleArray { .. } = self.0.config().trie_strategy { if self.0.get_base_double_array(0) != 1 { c.note("da_root_relocated", 1); } c.note("da_states", self.0.state_count() as u64); }
     }
+    fn insert_id(&mut self, k: &[u8]) -> Option<Result<u32, String>> { Some(self.0.insert_and_get_node_id(k).map_err(|e| e.to_string())) }
+    fn lookup_id(&self, k: &[u8]) -> Option<Option<u32>> { Some(self.0.lookup_node_id(k)) }
+    fn shrink(&mut self) -> bool { self.0.shrink_to_fit(); true }
+    fn ext(&self, c: &mut Case, mon: &mut Mon, m: &Set, probes: &[Key], kind: Ext) { zt_ext(&self.0, c, mon, m, probes, kind) }
 }
 
 macro_rules! wrapper_sut {
-    ($name:ident, $ty:ty) => {
+    ($name:ident, $ty:ty) => { wrapper_sut!($name, $ty, {}); };
+    ($name:ident, $ty:ty, { $($extra:tt)* }) => {
         struct $name($ty);
         impl Sut for $name {
             fn insert(&mut self, k: &[u8], alt: bool) -> Result<(), String> {
@@ -77,12 +87,20 @@ macro_rules! wrapper_sut {
             fn is_empty(&self) -> Option<bool> { Some(<$ty>::is_empty(&self.0)) }
             fn accepts(&self, k: &[u8]) -> Option<bool> { Some(FiniteStateAutomaton::accepts(&self.0, k)) }
             fn longest_prefix(&self, q: &[u8]) -> Option<Option<usize>> { Some(FiniteStateAutomaton::longest_prefix(&self.0, q)) }
+            $($extra)*
         }
     };
 }
-wrapper_sut!(Dat, DoubleArrayTrie);
-wrapper_sut!(Nlt, NestedLoudsTrie<RankSelectInterleaved256>);
-wrapper_sut!(Cst, CompressedSparseTrie);
+wrapper_sut!(Dat, DoubleArrayTrie, {
+    fn shrink(&mut self) -> bool { self.0.shrink_to_fit(); true }
+    fn ext(&self, c: &mut Case, mon: &mut Mon, m: &Set, probes: &[Key], kind: Ext) { dat_ext(&self.0, c, mon, m, probes, kind) }
+});
+wrapper_sut!(Nlt, NestedLoudsTrie<RankSelectInterleaved256>, {
+    fn ext(&self, c: &mut Case, mon: &mut Mon, m: &Set, _probes: &[Key], kind: Ext) { nlt_ext(&self.0, c, mon, m, kind) }
+});
+wrapper_sut!(Cst, CompressedSparseTrie, {
+    fn ext(&self, c: &mut Case, mon: &mut Mon, m: &Set, _probes: &[Key], kind: Ext) { if kind == Ext::Stats { let n = self.0.stats().num_keys; mon.chk(c, n == m.len(), "stats_num_keys", || format!("CompressedSparseTrie::stats().num_keys={n}, model has {}", m.len())); } }
+});
 
 struct Dawg(NestedTrieDawg);
 impl Sut for Dawg {
@@ -731,6 +749,7 @@ pub fn run(ctx: &mut Ctx) {
             for idx in 0..nm { ctx.case(t.id, &format!("mix/{f}"), idx, |c| random_case(c, t, fam, true, false)); }
         }
     }
+    run_ext(ctx);
 }
 
 fn dawg_cfg(r: &mut Rng) -> (DawgConfig, String) {
@@ -738,4 +757,275 @@ fn dawg_cfg(r: &mut Rng) -> (DawgConfig, String) {
     let cfg = DawgConfig { use_rank_select: r.bool(), enable_cache: r.bool(), compressed_storage: !dense, max_states: if dense { 3000 } else { *r.pick(&[3000usize, 100_000, 1_000_000]) }, ..DawgConfig::default() };
     let d = format!("DawgConfig rank_select={} cache={} compressed_storage={} max_states={}", cfg.use_rank_select, cfg.enable_cache, cfg.compressed_storage, cfg.max_states);
     (cfg, d)
+}
+
+// ===============================================================================================================
+// ext_* families: the public functions of the anchor files that the histories above never call
+//   ext_nodeid   insert_and_get_node_id / lookup_node_id / restore_string           (second lookup path + id -> key conversion)
+//   ext_shrink   shrink_to_fit interleaved with a history                            (must not change the set)
+//   ext_stats    stats().num_keys / performance_stats() of ZiporaTrie and the wrappers (second `len` path), TrieIterator::new
+//   ext_dawalk   DoubleArrayTrie::{is_terminal,is_free,get_parent,get_base,get_check}, ZiporaTrie::*_double_array: the state walk
+//   ext_cfgbuilder / ext_preset / ext_token   alternative constructors: NestingConfig::builder(), DawgConfig presets, NestedTrieDawg::new(),
+//                CompressedSparseTrie::insert_with_token                               (same histories, same oracles as ins/*)
+//   ext_par_*    ParallelLoudsTrie::parallel_process, ParallelTrieOps::{merge_tries,compute_similarity,find_common_prefixes}
+// Known defects of the unchanged tree are kept out of these families (no critical-bit targets, no remove on LOUDS storage, no
+// insert after build_from_keys) so that every verdict here is about the newly reached function.
+// ===============================================================================================================
+use zipora::concurrency::parallel_trie::ParallelTrieOps;
+use zipora::fsa::zipora_trie::TrieIterator;
+use zipora::fsa::{NestingConfigBuilder, VersionManager};
+
+#[derive(Clone, Copy, PartialEq, Debug)]
+enum Ext { NodeId, Shrink, Stats, DaWalk }
+impl Ext { fn gen(self) -> &'static str { match self { Ext::NodeId => "ext_nodeid", Ext::Shrink => "ext_shrink", Ext::Stats => "ext_stats", Ext::DaWalk => "ext_dawalk" } } }
+
+/// Getters the property says nothing about: called (so that they are reached under the monitor), never judged.
+fn unjudged(c: &mut Case, what: &str, f: impl FnOnce()) { if let Err(p) = crate::ctx::catch(f) { c.note(&format!("getter_panic:{what}"), 1); c.log(format!("getter {what} panicked at {}: {}", p.loc, p.msg)); } }
+
+#[allow(clippy::too_many_arguments)]
+fn da_walk(c: &mut Case, mon: &mut Mon, m: &Set, probes: &[Key], root: u32, tr: &dyn Fn(u32, u8) -> Option<u32>, term: &dyn Fn(u32) -> bool, free: &dyn Fn(u32) -> bool, parent: &dyn Fn(u32) -> u32, check: &dyn Fn(u32) -> u32) {
+    for k in probes {
+        let (mut s, mut ok) = (root, true);
+        for &b in k.iter() { match tr(s, b) {
+            Some(n) => { // structural accessors: the documentation does not say what they return for which state - notes only
+                if free(n) { c.note("da_reached_state_is_free", 1); } if parent(n) != s { c.note("da_parent_ne_walk_parent", 1); } if check(n) != parent(n) { c.note("da_check_ne_parent", 1); } s = n; }
+            None => { ok = false; break; } } }
+        let got = ok && term(s); let is_m = m.contains(k);
+        mon.chk(c, got == is_m, "fsa_walk_ne_member", || format!("root/transition walk of {} {} and is_terminal(end)={}, member={is_m}", hx(k), if ok { "completes" } else { "stops early" }, ok && term(s)));
+    }
+}
+
+fn zt_ext(t: &ZiporaTrie, c: &mut Case, mon: &mut Mon, m: &Set, probes: &[Key], kind: Ext) {
+    match kind {
+        Ext::Stats => {
+            let n = t.stats().num_keys; mon.chk(c, n == m.len(), "stats_num_keys", || format!("stats().num_keys={n}, model has {} (len()={})", m.len(), ZiporaTrie::len(t)));
+            let e = TrieIterator::new().count(); mon.chk(c, e == 0, "empty_iterator", || format!("TrieIterator::new() yields {e} keys"));
+            unjudged(c, "zt", || { let _ = (t.capacity(), t.memory_stats(), t.is_cache_optimized(), t.config().max_levels(), t.memory_usage()); });
+        }
+        Ext::NodeId => {
+            // only the Patricia and LOUDS storages implement node ids ("return None for now" elsewhere)
+            let supported = matches!(t.config().trie_strategy, TrieStrategy::Patricia { .. } | TrieStrategy::Louds { .. });
+            for k in probes {
+                let is_m = m.contains(k); let id = t.lookup_node_id(k);
+                if !supported { if id.is_some() != is_m { c.note("node_id_unsupported", 1); } continue; }
+                mon.chk(c, id.is_some() == is_m, "lookup_node_id_ne_member", || format!("lookup_node_id({}) = {id:?}, member={is_m} (|set|={})", hx(k), m.len()));
+                if let (Some(id), true) = (id, is_m) { let s = t.restore_string(id); mon.chk(c, s.as_deref() == Some(k.as_slice()), "restore_string", || format!("restore_string(lookup_node_id({}) = {id}) = {}", hx(k), match &s { Some(x) => hx(x), None => "None".into() })); }
+            }
+        }
+        Ext::DaWalk => if let TrieStrategy::DoubleArray { .. } = t.config().trie_strategy {
+            da_walk(c, mon, m, probes, FiniteStateAutomaton::root(t), &|s, b| FiniteStateAutomaton::transition(t, s, b), &|s| FiniteStateAutomaton::is_final(t, s), &|s| t.is_free_double_array(s), &|s| t.get_parent_double_array(s), &|s| t.get_check_double_array(s));
+        },
+        Ext::Shrink => {}
+    }
+}
+
+fn dat_ext(t: &DoubleArrayTrie, c: &mut Case, mon: &mut Mon, m: &Set, probes: &[Key], kind: Ext) {
+    match kind {
+        Ext::Stats => { let n = t.stats().num_keys; mon.chk(c, n == m.len(), "stats_num_keys", || format!("DoubleArrayTrie::stats().num_keys={n}, model has {}", m.len()));
+            unjudged(c, "dat", || { let _ = (t.capacity(), t.memory_stats(), t.memory_usage(), t.bits_per_key(), t.config()); }); }
+        Ext::DaWalk => { da_walk(c, mon, m, probes, FiniteStateAutomaton::root(t), &|s, b| FiniteStateAutomaton::transition(t, s, b), &|s| t.is_terminal(s), &|s| t.is_free(s), &|s| t.get_parent(s), &|s| t.get_check(s)); let _ = t.get_base(0); }
+        _ => {}
+    }
+}
+
+fn nlt_ext(t: &NestedLoudsTrie<RankSelectInterleaved256>, c: &mut Case, mon: &mut Mon, m: &Set, kind: Ext) {
+    if kind != Ext::Stats { return; }
+    let n = t.stats().num_keys; mon.chk(c, n == m.len(), "stats_num_keys", || format!("NestedLoudsTrie::stats().num_keys={n}, model has {}", m.len()));
+    let ps = t.performance_stats(); mon.chk(c, ps.num_keys == m.len() && ps.key_count == m.len(), "stats_num_keys", || format!("performance_stats(): num_keys={} key_count={}, model has {}", ps.num_keys, ps.key_count, m.len()));
+    unjudged(c, "nlt", || { let _ = (t.memory_usage(), t.config(), t.active_levels(), t.bits_per_key()); });
+}
+
+/// Calls `shrink_to_fit` before every `period`-th mutation; everything else is the wrapped target.
+struct ShrinkEvery { inner: Box<dyn Sut>, period: usize, n: usize }
+impl ShrinkEvery { fn tick(&mut self) { self.n += 1; if self.n % self.period == 0 { self.inner.shrink(); } } }
+impl Sut for ShrinkEvery {
+    fn insert(&mut self, k: &[u8], alt: bool) -> Result<(), String> { self.tick(); self.inner.insert(k, alt) }
+    fn remove(&mut self, k: &[u8]) -> Option<Result<bool, String>> { self.tick(); self.inner.remove(k) }
+    fn contains(&self, k: &[u8]) -> bool { self.inner.contains(k) }
+    fn contains_alt(&self, k: &[u8]) -> Option<bool> { self.inner.contains_alt(k) }
+    fn len(&self) -> usize { self.inner.len() }
+    fn is_empty(&self) -> Option<bool> { self.inner.is_empty() }
+    fn keys(&self) -> Option<Vec<Key>> { self.inner.keys() }
+    fn keys_with_prefix(&self, p: &[u8]) -> Option<Vec<Key>> { self.inner.keys_with_prefix(p) }
+    fn iter_all(&self) -> Option<Vec<Key>> { self.inner.iter_all() }
+    fn iter_prefix(&self, p: &[u8]) -> Option<Vec<Key>> { self.inner.iter_prefix(p) }
+    fn accepts(&self, k: &[u8]) -> Option<bool> { self.inner.accepts(k) }
+    fn longest_prefix(&self, q: &[u8]) -> Option<Option<usize>> { self.inner.longest_prefix(q) }
+    fn finish(&self, c: &mut Case) { self.inner.finish(c) }
+}
+
+/// CompressedSparseTrie through its token API: `insert_with_token` / `contains_with_token` / `lookup_with_token` with tokens of a VersionManager.
+struct CstTok { t: CompressedSparseTrie, vm: VersionManager }
+impl Sut for CstTok {
+    fn insert(&mut self, k: &[u8], alt: bool) -> Result<(), String> {
+        if alt { return self.t.insert(k).map_err(|e| e.to_string()); }
+        let tok = self.vm.acquire_writer_token().map_err(|e| format!("writer token: {e}"))?; self.t.insert_with_token(k, &tok).map_err(|e| e.to_string())
+    }
+    fn contains(&self, k: &[u8]) -> bool { self.t.contains(k) }
+    fn contains_alt(&self, k: &[u8]) -> Option<bool> { let tok = self.vm.acquire_reader_token().ok()?; let a = self.t.contains_with_token(k, &tok); let b = self.t.lookup_with_token(k, &tok).is_some(); let c0 = self.t.contains(k); Some(if a == c0 && b == c0 { c0 } else { !c0 }) }
+    fn len(&self) -> usize { self.t.len() }
+    fn is_empty(&self) -> Option<bool> { Some(self.t.is_empty()) }
+    fn accepts(&self, k: &[u8]) -> Option<bool> { Some(FiniteStateAutomaton::accepts(&self.t, k)) }
+    fn longest_prefix(&self, q: &[u8]) -> Option<Option<usize>> { Some(FiniteStateAutomaton::longest_prefix(&self.t, q)) }
+}
+
+fn tgt(id: &str) -> &'static Tgt { TARGETS.iter().find(|t| t.id == id).expect("target id") }
+fn is_louds(conf: &Conf) -> bool { match conf { Conf::Zt(cfg) => matches!(cfg.trie_strategy, TrieStrategy::Louds { .. }), Conf::Nlt(_) | Conf::NltBuilder => true, _ => false } }
+
+/// A history applied to the target and the model side by side (the model is trusted: ins/* and mix/* judge the basic operations),
+/// with the extra observers of `kind` compared at every `Full` checkpoint.
+fn replay_ext(c: &mut Case, s: &mut dyn Sut, p: &Plan, kind: Ext) -> Res {
+    let mut m: Set = p.init.iter().cloned().collect();
+    let mut mon = Mon { fails: vec![], step: 0, opdesc: "after build".into() }; let mut ok_new = m.len(); let mut r = c.rng.fork();
+    for (i, op) in p.ops.iter().enumerate() {
+        mon.step = i; if mon.fails.len() >= 8 { break; }
+        match op {
+            Op::Ins(k, alt) => {
+                mon.opdesc = format!("insert {}", hx(k));
+                let res = if kind == Ext::NodeId { match s.insert_id(k) { Some(x) => x.map(Some), None => s.insert(k, *alt).map(|_| None) } } else { s.insert(k, *alt).map(|_| None) };
+                match res {
+                    Ok(id) => { if m.insert(k.clone()) { ok_new += 1; }
+                        // "returns the same node id" is a code comment, not documentation: note only
+                        if let (Some(id), Some(l)) = (id, s.lookup_id(k)) { if l.is_some() && l != Some(id) { c.note("insert_id_ne_lookup_id", 1); } } }
+                    Err(e) => { c.note("insert_refused", 1); c.log(format!("insert refused: {e}")); } }
+            }
+            Op::Rem(k) => { mon.opdesc = format!("remove {}", hx(k)); if s.remove(k).is_some() { m.remove(k); } }
+            Op::Has(_) => {}
+            Op::Full => { mon.opdesc = format!("ext check, |set|={}", m.len()); let (mut probes, nm) = probe_keys(&mut r, &m, &p.pool); probes.extend(nm); c.note("ext_checks", 1); s.ext(c, &mut mon, &m, &probes, kind); }
+        }
+    }
+    c.note("final_set_size", m.len() as u64); c.set_nontrivial(ok_new >= 2);
+    mon.done(c)
+}
+
+fn ext_case(c: &mut Case, t: &Tgt, fam: u32, kind: Ext, idx: u64) -> Res {
+    let (conf, d) = choose(&mut c.rng, t.id)?;
+    let mut sh = shape(t, t.remove && !is_louds(&conf), false, &conf);
+    if kind == Ext::NodeId && idx % 2 == 0 { sh.cheap = true; }       // restore_string searches the whole node table per call
+    let period = if kind == Ext::Shrink { *c.rng.pick(&[1usize, 2, 3, 5, 9, 17]) } else { 0 };
+    let p = plan(&mut c.rng, fam, sh);
+    c.input_str("ext", kind.gen()); if period != 0 { c.input_str("shrink_period", &period.to_string()); }
+    record(c, &d, &p, sh);
+    let mut s = match build(c, conf, &p.init) { Ok(s) => s, Err(f) if f.oracle == "__refused" => return Ok(()), Err(f) => return Err(f) };
+    if kind == Ext::Shrink {
+        let mut w = ShrinkEvery { inner: s, period, n: 0 };
+        // a class violated here and silent in ins/* / mix/* is caused by shrink_to_fit: own oracle names
+        return replay(c, &mut w, &p, sh).map_err(|f| Fail { oracle: format!("after_shrink:{}", f.oracle), detail: f.detail });
+    }
+    replay_ext(c, s.as_mut(), &p, kind)
+}
+
+// ---- alternative constructors ------------------------------------------------------------------------------------
+fn alt_ctor_case(c: &mut Case, t: &Tgt, fam: u32, what: &str, nodup: bool) -> Res {
+    let sh = Shape { with_remove: false, with_insert: t.insert, init: t.init, cheap: t.cheap, nodup };
+    let mut d; let mk: Box<dyn FnOnce(&mut Case, &[Key]) -> Result<Box<dyn Sut>, Fail>>;
+    match what {
+        "ext_cfgbuilder" => {
+            let r = &mut c.rng; let via_new = r.bool();
+            let (ml, fcr, minf, maxf, co, cbs, dst, abs, mps) = (*r.pick(&[0usize, 1, 3, 8]), *r.pick(&[0.0f64, 0.5, 1.0]), *r.pick(&[0usize, 1, 64]), *r.pick(&[1usize, 256, 65536]), r.bool(), *r.pick(&[32usize, 64, 128]), *r.pick(&[0.0f64, 0.5]), r.bool(), *r.pick(&[0usize, 4096]));
+            d = format!("{}.max_levels({ml}).fragment_compression_ratio({fcr}).min_fragment_size({minf}).max_fragment_size({maxf}).cache_optimization({co}).cache_block_size({cbs}).density_switch_threshold({dst}).adaptive_backend_selection({abs}).memory_pool_size({mps}).build()", if via_new { "NestingConfigBuilder::new()" } else { "NestingConfig::builder()" });
+            mk = Box::new(move |_c, _init| {
+                let b = if via_new { NestingConfigBuilder::new() } else { NestingConfig::builder() };
+                let cfg = b.max_levels(ml).fragment_compression_ratio(fcr).min_fragment_size(minf).max_fragment_size(maxf).cache_optimization(co).cache_block_size(cbs).density_switch_threshold(dst).adaptive_backend_selection(abs).memory_pool_size(mps).build();
+                let cfg = match cfg { Ok(x) => x, Err(e) => return Err(Fail { oracle: "__refused".into(), detail: e.to_string() }) };      // a refused configuration decides nothing
+                Ok(Box::new(Nlt(NestedLoudsTrie::<RankSelectInterleaved256>::with_config(cfg).map_err(|e| err_ctor("NestedLoudsTrie", e))?)) as Box<dyn Sut>) });
+        }
+        "ext_preset" => {
+            let v = c.rng.below(3); let built = t.init != 0;
+            d = format!("{}{}", ["NestedTrieDawg::new()", "DawgConfig::memory_efficient()", "DawgConfig::performance_optimized()"][v as usize], if built { " build_from_keys" } else { "" });
+            mk = Box::new(move |_c, init| {
+                let mut g = match v { 0 => NestedTrieDawg::new(), 1 => NestedTrieDawg::with_config(DawgConfig::memory_efficient()), _ => NestedTrieDawg::with_config(DawgConfig::performance_optimized()) }.map_err(|e| err_ctor("NestedTrieDawg", e))?;
+                if built { g.build_from_keys(init.iter()).map_err(|e| err_ctor("build_from_keys", e))?; }
+                Ok(Box::new(Dawg(g)) as Box<dyn Sut>) });
+        }
+        _ => {
+            let lvl = *c.rng.pick(&[ConcurrencyLevel::SingleThreadStrict, ConcurrencyLevel::SingleThreadShared, ConcurrencyLevel::OneWriteMultiRead, ConcurrencyLevel::MultiWriteMultiRead]);
+            d = format!("CompressedSparseTrie level={lvl:?} insert_with_token(VersionManager writer token)");
+            mk = Box::new(move |_c, _init| Ok(Box::new(CstTok { t: CompressedSparseTrie::new(lvl).map_err(|e| err_ctor("CompressedSparseTrie", e))?, vm: VersionManager::new(lvl) }) as Box<dyn Sut>));
+        }
+    }
+    let mut p = plan(&mut c.rng, fam, sh); if p.obs == 2 { p.obs = 0; }
+    c.input_str("ext", what); record(c, &d, &p, sh);
+    let mut s = match mk(c, &p.init) { Ok(s) => s, Err(f) if f.oracle == "__refused" => { c.note("build_refused", 1); return Ok(()) } Err(f) => return Err(f) };
+    replay(c, s.as_mut(), &p, sh)
+}
+
+// ---- ParallelLoudsTrie::parallel_process and ParallelTrieOps -----------------------------------------------------------
+fn uniq_keys(r: &mut Rng, pool: &[Key], max: usize) -> Vec<Key> { let n = r.urange(0, max.min(pool.len())); let mut v: Vec<Key> = (0..n).map(|_| r.pick(pool).clone()).collect(); v.sort(); v.dedup(); r.shuffle(&mut v); v }
+fn enc_keys(ks: &[Key]) -> Vec<u8> { let mut e = Vec::new(); for k in ks { e.extend_from_slice(&(k.len() as u16).to_le_bytes()); e.extend_from_slice(k); } e }
+
+fn par_ext_case(c: &mut Case, t: &Tgt, fam: u32, what: &str) -> Res {
+    let rt = rt()?;
+    let pool = key_pool(&mut c.rng, fam, true);
+    let builder = t.id == "par/builder"; let (chunk, workers) = (*c.rng.pick(&[1usize, 3, 7, 10000]), *c.rng.pick(&[1usize, 2, 8]));
+    let ntries = if what == "ext_par_merge" { *c.rng.pick(&[0usize, 1, 2, 2, 3, 4]) } else if what == "ext_par_similarity" { 2 } else { 1 };
+    let mut sets: Vec<Vec<Key>> = (0..ntries).map(|_| uniq_keys(&mut c.rng, &pool, 24)).collect();
+    if what == "ext_par_similarity" { match c.rng.below(6) { 0 => sets[1] = sets[0].clone(), 1 => sets[1].clear(), 2 => { sets[0].clear(); sets[1].clear(); } 3 => { let h = sets[0].len() / 2; let extra = sets[0][..h].to_vec(); sets[1].extend(extra); sets[1].sort(); sets[1].dedup(); } _ => {} } }
+    let min_support = *c.rng.pick(&[0usize, 1, 2, 2, 3, 5]);
+    c.input_str("ext", what); c.input_str("cfg", &if builder { format!("ParallelTrieBuilder chunk_size={chunk} max_workers={workers}") } else { "ParallelLoudsTrie::new()+bulk_insert".to_string() }); c.input_str("fam", fam_name(fam));
+    for (i, s) in sets.iter().enumerate() { c.input(&format!("keys{i}"), &enc_keys(s)); }
+    if what == "ext_common_prefixes" { c.input_str("min_support", &min_support.to_string()); }
+    if sets.iter().any(|s| !s.is_empty()) { c.tag("nonempty"); } if sets.iter().any(|s| s.iter().any(|k| k.is_empty())) { c.tag("empty_key"); }
+    c.set_nontrivial(sets.iter().map(|s| s.len()).sum::<usize>() >= 2);
+    let mut mon = Mon { fails: vec![], step: 0, opdesc: what.to_string() };
+    let mk = |keys: &[Key]| -> Result<ParallelLoudsTrie, Fail> {
+        if builder { rt.block_on(ParallelTrieBuilder::new().chunk_size(chunk).max_workers(workers).build_louds_trie(keys.to_vec())).map_err(|e| err_ctor("build_louds_trie", e)) }
+        else { let t = ParallelLoudsTrie::new(); rt.block_on(t.bulk_insert(keys.to_vec())).map_err(|e| err_ctor("bulk_insert", e))?; Ok(t) } };
+    let model = |keys: &[Key]| -> Set { keys.iter().cloned().collect() };
+    match what {
+        "ext_par_process" => {
+            let m = model(&sets[0]); let t = mk(&sets[0])?; let mut r = c.rng.fork(); let (mut probes, nm) = probe_keys(&mut r, &m, &pool); probes.extend(nm);
+            // every operation runs on some read replica: each must answer like the set
+            let ops: Vec<_> = probes.iter().map(|k| { let k = k.clone(); move |z: &ZiporaTrie| -> zipora::error::Result<(bool, usize)> { Ok((ZiporaTrie::contains(z, &k), ZiporaTrie::len(z))) } }).collect();
+            let res = rt.block_on(t.parallel_process(ops));
+            mon.chk(c, res.len() == probes.len(), "parallel_process_count", || format!("{} results for {} operations", res.len(), probes.len()));
+            for (k, x) in probes.iter().zip(res.iter()) { let is_m = m.contains(k); match x {
+                Ok((got, n)) => { mon.chk(c, *got == is_m, if is_m { "replica_lost_key" } else { "replica_phantom_key" }, || format!("parallel_process(contains {}) = {got}, member={is_m} (|set|={})", hx(k), m.len())); mon.chk(c, *n == m.len(), "replica_len", || format!("replica len()={n}, model has {}", m.len())); }
+                Err(e) => mon.chk(c, false, "parallel_process_err", || format!("operation on {} returned Err({e}) although the closure returned Ok", hx(k))) } }
+        }
+        "ext_par_merge" => {
+            let mut u = Set::new(); let mut tries = Vec::new(); for s in &sets { u.extend(s.iter().cloned()); tries.push(mk(s)?); }
+            let merged = rt.block_on(ParallelTrieOps::merge_tries(tries)).map_err(|e| err_ctor("merge_tries", e))?;
+            let mut s = Par { rt, t: merged }; let mut p = pool.clone(); p.truncate(12);
+            full_check(c, &mut mon, &mut s, &u, &p, false, 0);
+        }
+        "ext_par_similarity" => {
+            let (a, b) = (model(&sets[0]), model(&sets[1])); let (ta, tb) = (mk(&sets[0])?, mk(&sets[1])?);
+            let got = rt.block_on(ParallelTrieOps::compute_similarity(&ta, &tb, c.rng.usize_below(50))).map_err(|e| err_ctor("compute_similarity", e))?;
+            let (i, un) = (a.intersection(&b).count(), a.union(&b).count());
+            // "Jaccard similarity"; two empty sets are documented nowhere: the code's 1.0 is accepted, as is 0.0
+            if un == 0 { c.note("similarity_of_two_empty", 1); mon.chk(c, got == 1.0 || got == 0.0, "similarity", || format!("similarity of two empty tries = {got}")); }
+            else { let want = i as f64 / un as f64; mon.chk(c, (got - want).abs() < 1e-12, "similarity", || format!("compute_similarity = {got}, |A∩B|/|A∪B| = {i}/{un} = {want}")); }
+        }
+        _ => {
+            let keys = sets[0].clone(); let got = rt.block_on(ParallelTrieOps::find_common_prefixes(keys.clone(), min_support)).map_err(|e| err_ctor("find_common_prefixes", e))?;
+            let m = model(&keys); let mut want: Set = Set::new();
+            for k in &keys { for l in 1..=k.len() { let p = &k[..l]; if with_prefix(&m, p).len() >= min_support { want.insert(p.to_vec()); } } }
+            // whether the empty prefix is a "common prefix" is not documented: ignored on both sides
+            let got: Vec<Key> = got.into_iter().filter(|p| !p.is_empty()).collect(); let want: Vec<Key> = want.into_iter().collect();
+            cmp_list(&mut mon, c, "common_prefixes", &format!("find_common_prefixes(min_support={min_support})"), got, &want);
+        }
+    }
+    mon.done(c)
+}
+
+const EXT_TARGETS: &[(Ext, &[&str])] = &[
+    (Ext::NodeId, &["zt/default", "zt/cache_optimized", "zt/hand_patricia", "alias/patricia_trie", "zt/space_optimized", "zt/hand_louds", "zt/hand_double_array", "zt/sparse_optimized"]),
+    (Ext::Shrink, &["zt/hand_double_array", "zt/concurrent_hp", "w/double_array", "w/double_array_builder", "zt/default"]),
+    (Ext::Stats, &["zt/default", "zt/space_optimized", "zt/sparse_optimized", "zt/hand_double_array", "w/double_array", "w/nested_louds", "w/compressed_sparse"]),
+    (Ext::DaWalk, &["zt/hand_double_array", "zt/concurrent_hp", "w/double_array", "w/double_array_builder"]),
+];
+
+fn run_ext(ctx: &mut Ctx) {
+    let n_ext = ctx.n(3, 40) as u64; let n_par = ctx.n(2, 20) as u64;
+    for fam in 0..FAMS {
+        let f = fam_name(fam);
+        for (kind, ids) in EXT_TARGETS { for id in ids.iter() { let t = tgt(id); for idx in 0..n_ext { ctx.case(t.id, &format!("{}/{f}", kind.gen()), idx, |c| ext_case(c, t, fam, *kind, idx)); } } }
+        for idx in 0..n_ext {
+            let t = tgt("w/nested_louds"); ctx.case(t.id, &format!("ext_cfgbuilder/{f}"), idx, |c| alt_ctor_case(c, t, fam, "ext_cfgbuilder", false));
+            for id in ["dawg/nested_insert", "dawg/nested_build"] { let t = tgt(id); ctx.case(t.id, &format!("ext_preset/{f}"), idx, |c| alt_ctor_case(c, t, fam, "ext_preset", true)); }
+            let t = tgt("w/compressed_sparse"); ctx.case(t.id, &format!("ext_token/{f}"), idx, |c| alt_ctor_case(c, t, fam, "ext_token", false));
+        }
+        for id in ["par/new", "par/builder"] { let t = tgt(id); for what in ["ext_par_process", "ext_par_merge", "ext_par_similarity", "ext_common_prefixes"] { for idx in 0..n_par { ctx.case(t.id, &format!("{what}/{f}"), idx, |c| par_ext_case(c, t, fam, what)); } } }
+    }
 }
